@@ -93,9 +93,9 @@ def run(tier):
     v.notes["gen_fault_files"] = nfault
     # --- TV
     cases = []
-    for i in range(1500 if tier == "quick" else 30000):
+    for i in range(1500 if tier == "quick" else 12000):
         cases.append(zt.text_case(gen.zt_file(r_), True))
-    for i in range(600 if tier == "quick" else 12000):
+    for i in range(600 if tier == "quick" else 5000):
         cases.append(zt.text_case(gen.zt_file(r_, r_.choice(gen.ZT_FAULTS)), True))
     for t in zt.repo_zone_files():
         cases.append(zt.text_case(t, True))
